@@ -1,0 +1,363 @@
+//go:build verif
+
+// Accessors for the /verif runtime-monitoring harness (domain vh2, properties
+// C33-C38). Add-only; compiled only with -tags verif.
+
+package bfe_http2
+
+import (
+	"net"
+	"runtime/debug"
+	"sync"
+)
+
+import (
+	http "github.com/bfenetworks/bfe/bfe_http"
+)
+
+// VerifPanic is one panic of a serve goroutine seen by notePanic.
+type VerifPanic struct {
+	Value string
+	Stack string
+}
+
+var (
+	verifConns  sync.Map // net.Conn -> *VerifConn
+	verifPanMu  sync.Mutex
+	verifPanics []VerifPanic
+)
+
+func init() {
+	prevGet := testHookGetServerConn
+	testHookGetServerConn = func(sc *serverConn) {
+		if prevGet != nil {
+			prevGet(sc)
+		}
+		if v, ok := verifConns.Load(sc.conn); ok {
+			vc := v.(*VerifConn)
+			if sc.testHookCh == nil {
+				sc.testHookCh = make(chan func(int))
+			}
+			vc.sc = sc
+			close(vc.ready)
+		}
+	}
+	prevPanic := testHookOnPanic
+	testHookOnPanic = func(sc *serverConn, e interface{}) bool {
+		stack := string(debug.Stack())
+		verifPanMu.Lock()
+		verifPanics = append(verifPanics, VerifPanic{Value: verifSprint(e), Stack: stack})
+		verifPanMu.Unlock()
+		if v, ok := verifConns.Load(sc.conn); ok {
+			v.(*VerifConn).panicked = verifSprint(e)
+			v.(*VerifConn).panicStack = stack
+		}
+		if prevPanic != nil {
+			return prevPanic(sc, e)
+		}
+		return false
+	}
+}
+
+func verifSprint(e interface{}) string {
+	if err, ok := e.(error); ok {
+		return err.Error()
+	}
+	if s, ok := e.(string); ok {
+		return s
+	}
+	return "non-string panic value"
+}
+
+// VerifPanics returns the serve-goroutine panics recorded so far.
+func VerifPanics() []VerifPanic {
+	verifPanMu.Lock()
+	defer verifPanMu.Unlock()
+	return append([]VerifPanic(nil), verifPanics...)
+}
+
+// VerifSetLargeConnRecvWindow sets the process-global knob that
+// EnableLargeConnRecvWindow() can only switch on. Call it only while no
+// connection is being served.
+func VerifSetLargeConnRecvWindow(on bool) { enableLargeConnRecvWindow = on }
+
+// VerifMaxQueuedControlFrames returns the configured limit.
+func VerifMaxQueuedControlFrames(s *Server) int { return s.maxQueuedControlFrames() }
+
+// VerifConn is a handle on one served connection.
+type VerifConn struct {
+	c          net.Conn
+	sc         *serverConn
+	ready      chan struct{} // closed once sc is known (before serve starts)
+	done       chan struct{} // closed when ServeConn returned
+	final      VerifSnapshot
+	panicked   string
+	panicStack string
+}
+
+// VerifNewConn registers c; Serve must be called next (on the goroutine that
+// becomes the serve goroutine).
+func VerifNewConn(c net.Conn) *VerifConn {
+	vc := &VerifConn{c: c, ready: make(chan struct{}), done: make(chan struct{})}
+	verifConns.Store(c, vc)
+	return vc
+}
+
+// Serve runs (*Server).ServeConn on the calling goroutine and returns when
+// the connection is finished.
+func (vc *VerifConn) Serve(srv *Server, hs *http.Server, h http.Handler) {
+	defer verifConns.Delete(vc.c)
+	defer close(vc.done)
+	srv.ServeConn(vc.c, &ServeConnOpts{BaseConfig: hs, Handler: h})
+	if vc.sc != nil {
+		// still on the (former) serve goroutine: no concurrent owner of sc
+		vc.final = verifSnap(vc.sc)
+	}
+}
+
+// Done is closed when Serve returned.
+func (vc *VerifConn) Done() <-chan struct{} { return vc.done }
+
+// Final returns the snapshot taken on the serve goroutine right after the
+// serve loop ended. Valid after Done.
+func (vc *VerifConn) Final() VerifSnapshot { return vc.final }
+
+// Panicked returns the panic value recovered by notePanic ("" if none). Valid after Done.
+func (vc *VerifConn) Panicked() string { return vc.panicked }
+
+// PanicStack returns the stack of the recovered panic. Valid after Done.
+func (vc *VerifConn) PanicStack() string { return vc.panicStack }
+
+// VerifSnapshot is a copy of serve-goroutine-owned state.
+type VerifSnapshot struct {
+	Valid               bool
+	LoopNum             int
+	QueuedControlFrames int
+	ZeroQueueLen        int
+	StreamQueues        int
+	StreamQueueFrames   int // frames waiting in the per-stream queues (not counted as control frames)
+	WritingFrame        bool
+	NeedSettingsAck     bool
+	NeedGoAway          bool
+	NeedsFlush          bool
+	InGoAway            bool
+	GoAwayCode          uint32
+	CurOpenStreams      uint32
+	AdvMaxStreams       uint32
+	MaxStreamID         uint32
+	ConnInflow          int32
+	ConnFlow            int32
+	Streams             []VerifStream
+	Nodes               []VerifNode
+}
+
+// Idle reports that the serve loop has nothing queued and nothing in flight.
+func (s VerifSnapshot) Idle() bool {
+	return s.Valid && !s.WritingFrame && !s.NeedSettingsAck && !s.NeedGoAway && !s.NeedsFlush &&
+		s.ZeroQueueLen == 0 && s.StreamQueues == 0
+}
+
+// VerifStream is the serve-goroutine view of one stream in sc.streams.
+type VerifStream struct {
+	ID        uint32
+	State     int // 0 idle 1 open 2 half-closed-local 3 half-closed-remote 4 closed (bfe_http2 streamState)
+	Inflow    int32
+	Flow      int32
+	BodyBytes int64
+	Weight    uint8
+}
+
+// VerifNode is one node of the dependency graph reachable from the stream
+// map through parent pointers (closed streams can remain reachable).
+type VerifNode struct {
+	ID     uint32
+	InMap  bool
+	Parent int // index into Nodes, -1 if nil
+}
+
+func verifNodes(streams map[uint32]*stream) []VerifNode {
+	idx := map[*stream]int{}
+	var order []*stream
+	var visit func(st *stream)
+	visit = func(st *stream) {
+		for st != nil {
+			if _, ok := idx[st]; ok {
+				return
+			}
+			idx[st] = len(order)
+			order = append(order, st)
+			st = st.parent
+		}
+	}
+	// deterministic order: ascending id
+	var ids []uint32
+	for id := range streams {
+		ids = append(ids, id)
+	}
+	for i := 1; i < len(ids); i++ {
+		for j := i; j > 0 && ids[j] < ids[j-1]; j-- {
+			ids[j], ids[j-1] = ids[j-1], ids[j]
+		}
+	}
+	for _, id := range ids {
+		visit(streams[id])
+	}
+	nodes := make([]VerifNode, len(order))
+	for i, st := range order {
+		n := VerifNode{ID: st.id, Parent: -1}
+		if cur, ok := streams[st.id]; ok && cur == st {
+			n.InMap = true
+		}
+		if st.parent != nil {
+			n.Parent = idx[st.parent]
+		}
+		nodes[i] = n
+	}
+	return nodes
+}
+
+func verifSnap(sc *serverConn) VerifSnapshot {
+	s := VerifSnapshot{
+		Valid:               true,
+		QueuedControlFrames: sc.queuedControlFrames,
+		ZeroQueueLen:        len(sc.writeSched.zero.s),
+		StreamQueues:        len(sc.writeSched.sq),
+		WritingFrame:        sc.writingFrame,
+		NeedSettingsAck:     sc.needToSendSettingsAck,
+		NeedGoAway:          sc.needToSendGoAway,
+		NeedsFlush:          sc.needsFrameFlush,
+		InGoAway:            sc.inGoAway,
+		GoAwayCode:          uint32(sc.goAwayCode),
+		CurOpenStreams:      sc.curOpenStreams,
+		AdvMaxStreams:       sc.advMaxStreams,
+		MaxStreamID:         sc.maxStreamID,
+		ConnInflow:          sc.inflow.n,
+		ConnFlow:            sc.flow.n,
+	}
+	for _, q := range sc.writeSched.sq {
+		s.StreamQueueFrames += len(q.s)
+	}
+	for _, st := range sc.streams {
+		vs := VerifStream{ID: st.id, State: int(st.state), Inflow: st.inflow.n, Flow: st.flow.n,
+			BodyBytes: st.bodyBytes, Weight: st.weight}
+		s.Streams = append(s.Streams, vs)
+	}
+	s.Nodes = verifNodes(sc.streams)
+	return s
+}
+
+// OnServe takes a snapshot on the serve goroutine (through the existing
+// testHookCh case of the serve loop, so the access is not a new race).
+// ok is false if the connection ended first.
+func (vc *VerifConn) OnServe() (snap VerifSnapshot, ok bool) {
+	select {
+	case <-vc.ready:
+	case <-vc.done:
+		return snap, false
+	}
+	sc := vc.sc
+	res := make(chan VerifSnapshot, 1)
+	fn := func(loopNum int) {
+		s := verifSnap(sc)
+		s.LoopNum = loopNum
+		res <- s
+	}
+	select {
+	case sc.testHookCh <- fn:
+		return <-res, true
+	case <-sc.doneServing:
+		return snap, false
+	case <-vc.done:
+		return snap, false
+	}
+}
+
+// VerifPriorityTree drives the real adjustStreamPriority on a private
+// stream map (no connection involved).
+type VerifPriorityTree struct {
+	streams map[uint32]*stream
+	all     []*stream // every stream ever opened, in creation order
+}
+
+// VerifNewPriorityTree creates open streams with the given ids, all roots.
+func VerifNewPriorityTree(ids []uint32) *VerifPriorityTree {
+	t := &VerifPriorityTree{streams: make(map[uint32]*stream)}
+	for _, id := range ids {
+		t.Open(id)
+	}
+	return t
+}
+
+// Open adds a stream (as processHeaders does) if id is not present.
+func (t *VerifPriorityTree) Open(id uint32) {
+	if _, ok := t.streams[id]; !ok {
+		st := &stream{id: id, state: stateOpen}
+		t.streams[id] = st
+		t.all = append(t.all, st)
+	}
+}
+
+// Close removes the stream from the map the way closeStream does: other
+// streams keep their parent pointers to it.
+func (t *VerifPriorityTree) Close(id uint32) {
+	if st, ok := t.streams[id]; ok {
+		st.state = stateClosed
+		delete(t.streams, id)
+	}
+}
+
+// Adjust calls the real adjustStreamPriority.
+func (t *VerifPriorityTree) Adjust(id, dep uint32, exclusive bool, weight uint8) {
+	adjustStreamPriority(t.streams, id, PriorityParam{StreamDep: dep, Exclusive: exclusive, Weight: weight})
+}
+
+// Nodes returns the dependency graph reachable from the map.
+func (t *VerifPriorityTree) Nodes() []VerifNode { return verifNodes(t.streams) }
+
+// Len is the number of streams in the map.
+func (t *VerifPriorityTree) Len() int { return len(t.streams) }
+
+// Parents writes, for every stream ever opened (creation order), the index
+// of its parent in that order (-1 = nil) into buf and returns it; inMap
+// likewise reports membership of the stream map. Allocation-free when the
+// buffers are large enough.
+func (t *VerifPriorityTree) Parents(buf []int, inMap []bool) ([]int, []bool) {
+	buf, inMap = buf[:0], inMap[:0]
+	for _, st := range t.all {
+		p := -1
+		if st.parent != nil {
+			for j, o := range t.all {
+				if o == st.parent {
+					p = j
+					break
+				}
+			}
+		}
+		buf = append(buf, p)
+		cur, ok := t.streams[st.id]
+		inMap = append(inMap, ok && cur == st)
+	}
+	return buf, inMap
+}
+
+// Restore sets parent pointers and map membership back to a state obtained
+// from Parents (same set of streams).
+func (t *VerifPriorityTree) Restore(parents []int, inMap []bool) {
+	for i, st := range t.all {
+		if parents[i] < 0 {
+			st.parent = nil
+		} else {
+			st.parent = t.all[parents[i]]
+		}
+		if inMap[i] {
+			st.state = stateOpen
+			t.streams[st.id] = st
+		} else {
+			st.state = stateClosed
+			delete(t.streams, st.id)
+		}
+	}
+}
+
+// ID returns the id of the i-th stream in creation order.
+func (t *VerifPriorityTree) ID(i int) uint32 { return t.all[i].id }
